@@ -96,6 +96,8 @@ def run_slice(case, ctx):
     from pyg_base import df_slice
     grid = case['grid']
     x = mk_ts(case['x'], grid)
+    if case.get('tz'):
+        x = x.tz_localize(case['tz'])          # the rows' own (local) time of day is what a time-of-day bound is compared with
     before = rows_of(x)
     oc = case['oc']
     if case.get('tod'):
@@ -316,6 +318,8 @@ def gen_case(rng):
             return [rng.randrange(24), 30]
         case = {'kind': 'slice', 'grid': 'h', 'tod': True, 'x': spec, 'lb': pick(), 'ub': pick(), 'oc': rng.choice(['()', '(]', '[)', '[]', None]), 'tuple_form': rng.random() < 0.2}
         if rng.random() < 0.15:
+            case['tz'] = rng.choice(['America/New_York', 'Asia/Tokyo', 'UTC', 'Europe/London'])
+        elif rng.random() < 0.15:
             which = rng.choice(['lb', 'ub'])
             if case['ub' if which == 'lb' else 'lb'] is not None:
                 case[which] = {'i': rng.choice(ts) if rng.random() < 0.6 else rng.randrange(72), 'off': 0}
